@@ -26,6 +26,8 @@ theorem RCM.invB_step (cfg : Cfg) {s s' : RCM} (a : Label) (hA : RCM.InvA s) (h 
   obtain ⟨h1, h2, h3, h4, h5, h6, h7, h8, h9, h10, h11, h12⟩ := h
   have c1 := fun j old new => countP_set_add CPc.isCollected s.cpcs j old new
   have c2 := fun e j old new => countP_set_add (fun p => p.collectedErr == some e) s.cpcs j old new
+  have hle : s.cpcs.countP CPc.isCollected ≤ s.cpcs.length := List.countP_le_length
+  have hg : cfg.grace.isSome = false → cfg.grace = none := by cases cfg.grace <;> simp
   cases a with
   | inner b =>
     simp only [RCM.step] at hs
